@@ -200,6 +200,12 @@ impl C14 {
                 }) {
                     return false;
                 }
+                if pre.hooks.iter().any(|x| x == sender) {
+                    h.out.count("updates_by_an_admin_that_is_itself_a_registered_hook");
+                }
+                if notes.first().map(|n| n.1.len() > 32).unwrap_or(false) {
+                    h.out.count("notifications_with_more_than_32_entries");
+                }
                 if !pre.hooks.is_empty() {
                     h.out.count("notified_updates");
                     if pre.hooks.len() >= 2 {
@@ -251,6 +257,8 @@ impl Monitor for C14 {
             "membership_updates_ok",
             "notified_updates",
             "updates_with_several_hooks",
+            "updates_by_an_admin_that_is_itself_a_registered_hook",
+            "notifications_with_more_than_32_entries",
             "updates_with_overlapping_add_and_remove",
             "re_weights_to_the_same_value",
             "hooks_added",
@@ -266,7 +274,7 @@ impl Monitor for C14 {
         ]
     }
     fn rule(&self) -> &'static str {
-        "seeded random cw4-group histories of UpdateAdmin (to others, to self, to None), AddHook/RemoveHook (0-3 hooks) and UpdateMembers with overlapping add/remove lists and same-weight re-adds, by the admin, former admins and strangers, continuing after the admin was cleared. After every call Admin, Hooks and ListMembers are compared with the pre-state and every hook notification in Response.messages is decoded and checked: one per registered hook, entries only for touched addresses, chained old/new values equal to the true weights before/after, every real change reported. distinct = (operation, outcome, caller class admin/former/other, number of hooks, admin cleared?)"
+        "seeded random cw4-group histories of UpdateAdmin (to others, to self, to None), AddHook/RemoveHook (0-3 hooks) and UpdateMembers with overlapping add/remove lists and same-weight re-adds (a sixth of the histories start with bulk updates of 24-63 addresses, half of them in both lists, while the admin itself is one of the registered hooks), by the admin, former admins and strangers, continuing after the admin was cleared. After every call Admin, Hooks and ListMembers are compared with the pre-state and every hook notification in Response.messages is decoded and checked: one per registered hook, entries only for touched addresses, chained old/new values equal to the true weights before/after, every real change reported. distinct = (operation, outcome, caller class admin/former/other, number of hooks, admin cleared?)"
     }
     fn assumptions(&self) -> Vec<&'static str> {
         vec![
@@ -292,6 +300,47 @@ impl Monitor for C14 {
         }
         let mut cleared = admin.is_none();
         let mut former: Vec<String> = vec![];
+        if let (Some(a), true) = (&admin, matches!(h.idx % 12, 1 | 6)) {
+            // bulk updates: dozens of addresses in one call, many of them in both lists, with the admin
+            // itself among the listeners
+            let hp = hooks_pool();
+            for hk in [hp[0].clone(), a.clone()] {
+                if !self.step(h, &mut g, &mut cleared, &mut former, a, &Op::AddHook { addr: hk }) {
+                    return;
+                }
+            }
+            let n_bulk = 24 + h.rng.below_usize(40);
+            let bulk: Vec<String> = (0..n_bulk).map(|i| crate::direct::mk_addr(&format!("bulk-{i:02}"))).collect();
+            for round in 0..2 {
+                let mut add: Vec<(String, u64)> = vec![];
+                for b in &bulk {
+                    if round == 0 || h.rng.chance(3, 4) {
+                        add.push((b.clone(), 1 + h.rng.below(40)));
+                    }
+                }
+                // caller order is not address order
+                for i in (1..add.len()).rev() {
+                    let j = h.rng.below_usize(i + 1);
+                    add.swap(i, j);
+                }
+                let mut remove: Vec<String> = vec![];
+                if round == 1 {
+                    for b in &bulk {
+                        if h.rng.chance(1, 2) {
+                            remove.push(b.clone());
+                        }
+                    }
+                    for i in (1..remove.len()).rev() {
+                        let j = h.rng.below_usize(i + 1);
+                        remove.swap(i, j);
+                    }
+                }
+                g.w.advance(1, 6);
+                if !self.step(h, &mut g, &mut cleared, &mut former, a, &Op::UpdateMembers { add, remove }) {
+                    return;
+                }
+            }
+        }
         let n = h.tier.pick(60, 100);
         for _ in 0..n {
             if h.rng.chance(1, 3) {
